@@ -29,12 +29,13 @@ K_LEAK_GRP = 'CompoundParserSimple tempBracketAtoms not freed when ca is empty x
 # theorems that must exist (and be axiom-clean) in Props/C07.lean, and the non-vacuity witnesses checked by name
 REQUIRED_THEOREMS = ['parse_print_counts', 'parse_print', 'parse_reorder', 'parse_expand_group',
                      'parse_rejects_outside_alphabet', 'parse_rejects_unbalanced', 'parse_rejects_invalid',
-                     'parse_accepts_weightless', 'parse_rejects_full_fails',
-                     'locale_after_call', 'locale_restored_partial', 'locale_restored_full_fails', 'add_compound_spec']
+                     'parse_accepts_weightless', 'parse_rejects_full_fails', 'parse_rejects_full_fixed', 'parse_weightless_nan',
+                     'locale_after_call', 'locale_restored_partial', 'locale_restored_full_fails', 'locale_restored_fixed',
+                     'heap_balanced_full_fails', 'heap_leak_leading_group', 'heap_balanced_fixed', 'add_compound_spec']
 
 SEEDS = ['H2O', 'Mg(OH)2', 'Fe2.5O', 'He', 'U', '(H)', 'Ca5(PO4)3F', 'C6H12O6', '(NH4)2SO4', 'K4(Fe(CN)6)', 'H.5O',
          'Al2(SO4)3', 'CuSO4(H2O)5', 'Rf', '((H2)3O)0.5', 'NaCl', 'Pb(C2H3O2)2', 'UO2(NO3)2(H2O)6', 'SiO2', 'La1.85Sr.15CuO4']
-QUICK_FULL_SEEDS = ['H2O', 'Mg(OH)2', 'Fe2.5O']
+QUICK_FULL_SEEDS = ['H2O', 'Mg(OH)2', 'Fe2.5O', 'He', 'U', '(H)', 'Ca5(PO4)3F', 'H.5O', 'Rf', '((H2)3O)0.5']
 
 def log(*a): core.log(*a)
 
@@ -190,9 +191,20 @@ class Run:
             return out
         return self._chunks(lines, one)
 
+    def probe_variant(self):
+        """which of the proposed repairs C07-1/2/3 the working tree contains: observed on three witnesses of the
+        library just built (the choice is then validated by the whole correspondence run)"""
+        o = self.run_c(['parse C.utf8 H2O', 'parse C Rf', 'parse C Uu', 'parse C (H)'])
+        a = [parse_answer(x, cnum) for x in o]
+        locale_fix = a[0].get('loc') == ('C.utf8', 'C.utf8')
+        weight_fix = a[1]['kind'] == 'err'
+        leak_fix = a[2].get('live') == (0, 0) and a[3].get('live') == (4, 0)
+        self.variant = '%d%d%d' % (locale_fix, weight_fix, leak_fix)
+        return self.variant
+
     def run_model(self, lines):
         def one(ls):
-            p = subprocess.run([self.model_exe(), self.tables_path], input='\n'.join(ls) + '\n', capture_output=True, text=True)
+            p = subprocess.run([self.model_exe(), self.tables_path, getattr(self, 'variant', '000')], input='\n'.join(ls) + '\n', capture_output=True, text=True)
             out = p.stdout.splitlines()
             if p.returncode != 0 or len(out) != len(ls):
                 raise BuildError('parser-model failed (%d answers for %d lines): %s' % (len(out), len(ls), p.stderr[-1000:]))
@@ -209,7 +221,7 @@ class Run:
             for b in self.syms: out.append(('pair', (a + b).encode(), None))
         g = G.Gen(r, self.syms_w)
         gall = G.Gen(r, self.syms)
-        nform = 6000 if thorough else 700
+        nform = 40000 if thorough else 4000
         self.rewrite_pairs = []      # (index of original, index of rewrite, kind)
         for k in range(nform):
             f = (gall if k % 10 == 9 else g).formula()
@@ -220,7 +232,7 @@ class Run:
             if f3 is not None and len(G.show(f3)) <= 120:
                 self.rewrite_pairs.append((i0, len(out), 'expand')); out.append(('expand', G.show(f3).encode(), f3))
         # malformed stream: single-character mutations
-        seeds = [s.encode() for s in SEEDS] + [G.show(g.formula(maxdepth=3, maxlen=24)).encode() for _ in range(10 if thorough else 4)]
+        seeds = [s.encode() for s in SEEDS] + [G.show(g.formula(maxdepth=3, maxlen=24)).encode() for _ in range(20 if thorough else 4)]
         self.mut_seeds = [s.decode() for s in seeds]
         if thorough:
             for s in seeds:
@@ -231,7 +243,7 @@ class Run:
                     for m in G.mutations(s): out.append(('mutation', m, None))
                 else:
                     ms = list(G.mutations(s, bytes_range=[r.randrange(1, 256) for _ in range(6)] + [40, 41, 46, 48, 32, 101, 72]))
-                    for m in r.sample(ms, min(len(ms), 260)): out.append(('mutation', m, None))
+                    for m in r.sample(ms, min(len(ms), 600)): out.append(('mutation', m, None))
         return out
 
     def corpus(self):
@@ -260,7 +272,7 @@ class Run:
                 zs = [r.randint(1, 12) for _ in range(n)]
             its = ','.join('%d:%s:%s' % (z, dec(0, 9, 2), dec(0, 1, 6)) for z in zs)
             return '%s;%s;%s' % (dec(0, 50, 1), dec(0, 500, 3), its)
-        for k in range(1500 if self.tier == 'thorough' else 300):
+        for k in range(10000 if self.tier == 'thorough' else 1000):
             asc = k % 7 != 6
             out.append('add %s %s %s %s' % (dec(0, 1, 4), dec(0, 1, 4), cd(asc), cd(asc)))
         return out
@@ -404,6 +416,9 @@ class C07:
             ctx.tick('leanchecker', t)
             if p.returncode != 0: rep['problems'].append('leanchecker rejected %s: %s' % (MODULE, (p.stdout + p.stderr)[-400:]))
             else: ctx.notes.append('leanchecker re-checked %s' % MODULE)
+        variant = R.probe_variant()
+        if variant != '000':
+            ctx.notes.append('working tree contains proposed repairs (localeFix, weightFix, leakFix) = %s; the model runs with the same switches' % variant)
         # table precondition of the bsearch contract, executed by the compiled model
         if R.run_model(['tablesok']) != ['true']:
             rep['tie_broken'].append('tablesOK false: MendelArraySorted is not strictly sorted by strcmp / not a permutation of MendelArray (bsearch contract unmet)')
@@ -527,7 +542,7 @@ class C07:
                         'non-trivial = distinct input strings for which the specification oracle expects a composition (a well-formed formula all of whose elements have weights)' % (len(R.syms), QUICK_FULL_SEEDS),
                    samples=[dict(line=lines[i], impl=c_out[i][:300], model=m_out[i][:300]) for i in smp_idx],
                    max_rel_dev_model_vs_impl=stats.get('max_rel_dev', 0.0), max_rel_dev_oracle_vs_impl=sstats.get('max_rel_dev', 0.0),
-                   distribution=dist, tables_sha=R.tables_sha, mutation_seeds=getattr(R, 'mut_seeds', []),
+                   distribution=dist, tables_sha=R.tables_sha, model_variant=dict(localeFix=variant[0] == '1', weightFix=variant[1] == '1', leakFix=variant[2] == '1'), mutation_seeds=getattr(R, 'mut_seeds', []),
                    provenance=dict(parser_c=_sha(os.path.join(REPO, 'src', 'xraylib-parser.c')), repo=REPO),
                    broken=rep)
         core.write_evidence(ctx, 'proof', cov, len(new) + (1 if broken and not new else 0), ASSUMPTIONS)
